@@ -48,6 +48,34 @@ class Rewriter(ast.NodeTransformer):
                 ast.Call(ast.Name("sx_join_", ast.Load()), [f.value, node.args[0]], []), node)
         return node
 
+    # truth tests: `if obj:` on an object whose python-level __len__ returns a symbolic integer would be
+    # forced through __index__ by the interpreter; sx_truth_ asks `len != 0` instead (2-way fork)
+    def _wrap_test(self, e):
+        if isinstance(e, ast.BoolOp):
+            e.values = [self._wrap_test(v) for v in e.values]
+            return e
+        if isinstance(e, ast.UnaryOp) and isinstance(e.op, ast.Not):
+            e.operand = self._wrap_test(e.operand)
+            return e
+        if isinstance(e, (ast.Name, ast.Attribute)):
+            return ast.copy_location(ast.Call(ast.Name("sx_truth_", ast.Load()), [e], []), e)
+        return e
+
+    def visit_If(self, node):
+        self.generic_visit(node)
+        node.test = self._wrap_test(node.test)
+        return node
+
+    def visit_While(self, node):
+        self.generic_visit(node)
+        node.test = self._wrap_test(node.test)
+        return node
+
+    def visit_IfExp(self, node):
+        self.generic_visit(node)
+        node.test = self._wrap_test(node.test)
+        return node
+
     def visit_AnnAssign(self, node):
         if node.value is not None:
             node.value = self.visit(node.value)
